@@ -129,7 +129,7 @@ def call_real(c, pool=None):
     try:
         key = (c["kind"], c["par"])
         if pool is not None and key in pool:
-            sizer, broker, dh = pool[key]
+            sizer, broker, dh, wobj = pool[key]
             fresh = _Broker(float(Fraction(c["eq"])), c["fee"])
             broker.equity, broker.fee_model = fresh.equity, fresh.fee_model
             dh.prices = prices
@@ -140,12 +140,19 @@ def call_real(c, pool=None):
                 sizer = DollarWeightedCashBufferedOrderSizer(broker, "pf", dh, cash_buffer_percentage=float(Fraction(c["par"])))
             else:
                 sizer = LongShortLeveragedOrderSizer(broker, "pf", dh, gross_leverage=float(Fraction(c["par"])))
+            wobj = {}
             if pool is not None:
-                pool[key] = (sizer, broker, dh)
+                pool[key] = (sizer, broker, dh, wobj)
         # shuffled insertion order: the result must not depend on it
         items = list(weights.items())
         random.Random(len(items)).shuffle(items)
-        out = sizer(dt, dict(items))
+        if pool is not None:
+            # a pooled sizer is handed the SAME dictionary object every time, edited in place by its owner
+            wobj.clear()
+            wobj.update(items)
+            out = sizer(dt, wobj)
+        else:
+            out = sizer(dt, dict(items))
     except Exception as e:
         return ("err", type(e).__name__)
     if set(out) != set(assets):
